@@ -11,7 +11,8 @@ What is read
   req_compile/repos/pypi.py
       _scan_page_links: the retry test `retries and LO <= status < HI`, the status that is let
       through (`!= 404`), the default of PyPIRepository(retries=...)
-      _do_download: number of references to the response status (0 on the unchanged tree),
+      _do_download: references to the response status (exactly one: response.raise_for_status()
+      directly after session.get and before the file is opened),
       the shape `if sha is not None and exists: ... if digest == sha: return .., True ... os.remove`
       resolve_candidate: the except class and the guard of the removal.
 """
@@ -417,6 +418,18 @@ def read_download_shape() -> Dict[str, Any]:
     for n in ast.walk(f):
         if isinstance(n, ast.Attribute) and n.attr in ("status_code", "raise_for_status", "ok", "headers"):
             status_refs += 1
+    # response.raise_for_status() directly after `response = session.get(...)`, before the file is opened
+    status_check = False
+    body = f.body
+    for i, st in enumerate(body):
+        if isinstance(st, ast.Assign) and isinstance(st.value, ast.Call) and _call_name(st.value) == ("session", "get") \
+                and len(st.targets) == 1 and isinstance(st.targets[0], ast.Name):
+            rv = st.targets[0].id
+            nxt = body[i + 1] if i + 1 < len(body) else None
+            later_with = any(isinstance(x, ast.With) for x in body[i + 2:])
+            if isinstance(nxt, ast.Expr) and isinstance(nxt.value, ast.Call) and _call_name(nxt.value) == (rv, "raise_for_status") \
+                    and not nxt.value.args and later_with:
+                status_check = True
     # separator of the digest fragment
     seps = [T.literal(n.args[0]) for n in ast.walk(f)
             if isinstance(n, ast.Call) and isinstance(n.func, ast.Attribute) and n.func.attr == "split" and len(n.args) == 1]
@@ -452,7 +465,9 @@ def read_download_shape() -> Dict[str, Any]:
     if len(tries) != 1 or len(tries[0].handlers) != 1:
         raise TranslateError("resolve_candidate: expected one try with one except clause")
     h = tries[0].handlers[0]
-    hcls = _exc_name(h.type)
+    if not isinstance(h.type, (ast.Name, ast.Attribute)):
+        raise TranslateError("resolve_candidate: unsupported except clause")
+    hcls = h.type.id if isinstance(h.type, ast.Name) else h.type.attr
     guard_ok = False
     for s in h.body:
         if isinstance(s, ast.If):
@@ -464,7 +479,7 @@ def read_download_shape() -> Dict[str, Any]:
                 rm = any(isinstance(m, ast.Call) and _call_name(m) == ("os", "remove") for m in ast.walk(s))
                 guard_ok = c1 and c2 and rm
     reraises = isinstance(h.body[-1], ast.Raise) and h.body[-1].exc is None
-    return {"status_refs": status_refs, "sep": seps[0], "reuse_guarded": reuse_guarded,
+    return {"status_refs": status_refs, "status_check": status_check, "sep": seps[0], "reuse_guarded": reuse_guarded,
             "removes_on_mismatch": removes_on_mismatch, "rc_except": hcls, "rc_guard_ok": guard_ok, "rc_reraises": reraises}
 
 
@@ -504,7 +519,8 @@ def gen_c15_consts() -> str:
     out += f"Definition dl_digest_sep : string := {T.coq_str(dl['sep'])}.\n"
     out += f"Definition dl_reuse_guarded_by_digest : bool := {_coq_bool(dl['reuse_guarded'])}.\n"
     out += f"Definition dl_removes_on_mismatch : bool := {_coq_bool(dl['removes_on_mismatch'])}.\n"
-    out += f"Definition rc_except_class : ecls := {dl['rc_except']}.\n"
+    out += f"Definition dl_status_check_before_write : bool := {_coq_bool(dl['status_check'])}.\n"
+    out += f"Definition rc_except_class : string := {T.coq_str(dl['rc_except'])}.\n"
     out += f"Definition rc_removal_guard_ok : bool := {_coq_bool(dl['rc_guard_ok'])}.\n"
     out += f"Definition rc_reraises : bool := {_coq_bool(dl['rc_reraises'])}.\n"
     out += "Definition scan_handlers : list ecls := [" + "; ".join(sc["scan_handlers"]) + "].\n"
